@@ -377,8 +377,7 @@ func (fc *faultCtx) fault() {
 			} else if d := s.Broker.downByID(id); d != nil {
 				switch kind {
 				case "cut+conflict-resume":
-					d.ConflictLeft = Pick(t, "conflict-n", 1, 2, 3)
-					fc.refused[id] = true // the client gives up a downstream on conflict: counts as refusal
+					d.ConflictLeft = Pick(t, "conflict-n", 1, 2, 3) // a conflict asks for another try, like for an upstream
 				case "cut+refuse-resume":
 					d.RefuseResume = message.ResultCodeUnspecifiedError
 					fc.refused[id] = true
